@@ -19,6 +19,10 @@ type EntityLocal struct {
 	mux sync.Mutex
 }
 
+// the use case data of all entities is stored in one data set of the node management
+// feature and changed by reading, modifying and setting it, so these changes may not overlap
+var useCaseMux sync.Mutex
+
 func NewEntityLocal(device api.DeviceLocalInterface,
 	eType model.EntityTypeType,
 	entityAddress []model.AddressEntityType,
@@ -153,6 +157,9 @@ func (r *EntityLocal) AddUseCaseSupport(
 	useCaseAvailable bool,
 	scenarios []model.UseCaseScenarioSupportType,
 ) {
+	useCaseMux.Lock()
+	defer useCaseMux.Unlock()
+
 	nodeMgmt := r.device.NodeManagement()
 
 	data, err := r.useCaseDataCopy()
@@ -195,6 +202,9 @@ func (r *EntityLocal) SetUseCaseAvailability(
 	actor model.UseCaseActorType,
 	useCaseName model.UseCaseNameType,
 	available bool) {
+	useCaseMux.Lock()
+	defer useCaseMux.Unlock()
+
 	nodeMgmt := r.device.NodeManagement()
 
 	data, err := r.useCaseDataCopy()
@@ -219,6 +229,9 @@ func (r *EntityLocal) RemoveUseCaseSupport(
 	actor model.UseCaseActorType,
 	useCaseName model.UseCaseNameType,
 ) {
+	useCaseMux.Lock()
+	defer useCaseMux.Unlock()
+
 	nodeMgmt := r.device.NodeManagement()
 
 	data, err := r.useCaseDataCopy()
@@ -240,6 +253,9 @@ func (r *EntityLocal) RemoveUseCaseSupport(
 
 // Remove all usecases
 func (r *EntityLocal) RemoveAllUseCaseSupports() {
+	useCaseMux.Lock()
+	defer useCaseMux.Unlock()
+
 	nodeMgmt := r.device.NodeManagement()
 
 	data, err := r.useCaseDataCopy()
